@@ -78,7 +78,17 @@ func (g *gateRT) RoundTrip(r *http.Request) (*http.Response, error) {
 	g.mu.Unlock()
 	<-ch
 	if bad {
-		return &http.Response{StatusCode: 500, Body: io.NopCloser(strings.NewReader("boom")), Header: http.Header{}}, nil
+		body := "boom"
+		if g.wire%2 == 1 {
+			// a failed call may still carry a well-formed answer list: it is a failure all the same
+			out := make([]map[string]interface{}, len(idxs))
+			for i, n := range idxs {
+				out[i] = map[string]interface{}{"data": map[string]interface{}{"v": n + 1000}}
+			}
+			b, _ := json.Marshal(out)
+			body = string(b)
+		}
+		return &http.Response{StatusCode: []int{500, 502, 404, 429}[g.wire%4], Body: io.NopCloser(strings.NewReader(body)), Header: http.Header{"Content-Type": []string{"application/json"}}}, nil
 	}
 	out := make([]map[string]interface{}, len(idxs))
 	for i, n := range idxs {
